@@ -20,7 +20,7 @@ ASSUMPTIONS = [
 ]
 RULE = ("sessions = handshake variant (3.3/3.7/3.8/3.889/4.x/5.0/odd banners, None or VNC auth, extra security types) + 0..6 server messages "
         "(FramebufferUpdate with 0..5 rectangles in Raw/CopyRect/RRE/CoRRE/Hextile/ZRLE/cursor/DesktopSize/QEMU-ext, LastRect, Bell, ServerCutText, "
-        "SetColourMapEntries) in the pixel format in force; each delivered whole, byte-wise, cut at every message boundary +-1, 2 random chunkings and one "
+        "SetColourMapEntries) in the pixel format in force, every ninth session followed by a run of 300..1100 small messages; each delivered whole, byte-wise, cut at every message boundary +-1, 2 random chunkings and one "
         "gluing chunking; base / library / CLI / VMware client classes; non-trivial = distinct (session, chunking) with more than one chunk")
 
 
@@ -83,6 +83,23 @@ def run(ctx):
         parts, pf, ver, authresp, (w, h) = gen_handshake(r, kind if kind != "vmware" else "lib", opts)
         sess = Session(pf)
         msgs = gen_messages(r, sess, r.randint(0, 6), maxarea=2500)
+        if si % 9 == 4:
+            # a long run of small messages (bells, empty clipboard, empty updates, 1x1 rectangles): delivered in ONE chunk the
+            # dispatch loop handles hundreds of messages per dataReceived call, delivered byte-wise one handler at a time
+            many = []
+            for _ in range(r.choice([300, 500, 1100])):
+                k = r.random()
+                if k < .5:
+                    many.append((sess.bell(), ("bell",)))
+                elif k < .7:
+                    many.append((sess.cuttext(b""), ("cut", b"")))
+                elif k < .85:
+                    many.append((sess.update([], False, r=r), ("update", [], False)))
+                else:
+                    one = enc_raw(r, pf, r.randrange(3), r.randrange(3), 1, 1)
+                    many.append((sess.update([one], False, r=r), ("update", [one], False)))
+            msgs += many
+            ctx.count("long_runs_of_small_messages")
         if kind == "vmware" and pf.bypp == 4:
             # the workaround's own trigger: 1x1 raw updates of the top-left pixel
             for _ in range(r.randint(1, 3)):
